@@ -218,4 +218,46 @@ fn k9_pick_numeric_i64_len1() { pick_i64_harness(1); }
 fn k9_pick_numeric_i64_len3() { pick_i64_harness(3); }
 
 // concrete-playback tests (empty unless a failed harness is being replayed)
+// ---- K9, keyword fields: the arm of ResolvedSortField::value that picks the sort value of a multi-valued keyword
+// field, cut out mechanically on every run (kani/sort_slices.tpl -> .cache/gen/sort_slices.rs) ----
+include!("/verif/.cache/gen/sort_slices.rs");
+
+fn small_str(buf: &[u8; 2], n: usize) -> &str {
+  // ASCII bytes only: any prefix is valid UTF-8
+  unsafe { std::str::from_utf8_unchecked(&buf[..n]) }
+}
+
+// C10: "multi-valued fields sort by their minimum under asc and their maximum under desc" - for keyword values the
+// order is the byte-wise string order; an empty list is Missing (None here)
+#[kani::proof]
+#[kani::unwind(4)]
+fn k9_keyword_pick_len_le_2() {
+  let a: [u8; 2] = kani::any();
+  let b: [u8; 2] = kani::any();
+  kani::assume(a[0] < 128 && a[1] < 128 && b[0] < 128 && b[1] < 128);
+  let na: usize = kani::any();
+  let nb: usize = kani::any();
+  kani::assume(na <= 2 && nb <= 2);
+  let sa = small_str(&a, na);
+  let sb = small_str(&b, nb);
+  let n: usize = kani::any();
+  kani::assume(n <= 2);
+  let selector = if kani::any() { ValueSelector::Min } else { ValueSelector::Max };
+  let is_min = matches!(selector, ValueSelector::Min);
+  let all = [sa, sb];
+  let r = keyword_pick(&all[..n], selector);
+  if n == 0 {
+    assert!(r.is_none());
+  } else if n == 1 {
+    assert!(r == Some(sa));
+  } else {
+    let lo = if sa.as_bytes() <= sb.as_bytes() { sa } else { sb };
+    let hi = if sa.as_bytes() <= sb.as_bytes() { sb } else { sa };
+    let v = r.unwrap();
+    assert!(v.as_bytes() == (if is_min { lo } else { hi }).as_bytes());
+  }
+  kani::cover!(n == 2 && sa != sb && is_min);
+  kani::cover!(n == 2 && sa != sb && !is_min);
+}
+
 include!("/verif/.cache/gen/playback_sort.rs");
